@@ -1,6 +1,7 @@
 import Driver.Proto
 import Selene.Lua.Read
 import Selene.Scope.Lints
+import Selene.Scope.MoreLints
 import Selene.Scope.Spec
 import Selene.Scope.Core
 import Selene.Scope.TopProof
@@ -79,12 +80,13 @@ def handleTables : Handler := fun input impl =>
       let hasFields := fun n => oracle.hasFields.contains n
       let argObs := fun (p : List String) (i : Nat) => if oracle.writeOnlyArgs.contains (p, i) then some true else some false
       let isMustUse := fun (p : List String) => oracle.mustUsePaths.contains p
-      let mdiags := undefinedVariable hasFields σ ++ unusedVariable hasFields argObs defaultIgnore true σ ++ shadowing defaultIgnore σ ++ mustUse isMustUse σ
+      let more := globalUsage false none σ ++ unscopedVariables defaultIgnore hasFields σ
+      let mdiags := undefinedVariable hasFields σ ++ unusedVariable hasFields argObs defaultIgnore true σ ++ shadowing defaultIgnore σ ++ mustUse isMustUse σ ++ more
       let spec := Spec.resolve chunk.block
       match impl with
       | .atom "panic" =>
         { agree := σ.panic.isSome, spec := some "[C11] scope analysis / lint pass panicked", model := toString (repr σ.panic), tags := ["panic"] }
-      | .list [.list [.list irefs, .list ivars, .list icalls], .list [.list idiags, .list idiagsV1, .list idiagsV2]] =>
+      | .list [.list [.list irefs, .list ivars, .list icalls], .list [.list idiags, .list idiagsV1, .list idiagsV2, .list idiagsV3, .list idiagsV4]] =>
         let mrefs := σ.refs.toList.map (showRef σ)
         let mvars := σ.vars.toList.map (showVar σ)
         let mcalls := σ.calls.toList.map (showCall σ)
@@ -96,9 +98,13 @@ def handleTables : Handler := fun input impl =>
         -- the two non-default settings: v1 = ignore_pattern "^x", allow_unused_self = false; v2 = pattern "$^" (matches no name)
         let ignoreV1 := fun (n : String) => n.startsWith "x"
         let ignoreV2 := fun (_ : String) => false
-        let mdV1 := sortStrs ((undefinedVariable hasFields σ ++ unusedVariable hasFields argObs ignoreV1 false σ ++ shadowing ignoreV1 σ ++ mustUse isMustUse σ).map showDiag)
-        let mdV2 := sortStrs ((undefinedVariable hasFields σ ++ unusedVariable hasFields argObs ignoreV2 true σ ++ shadowing ignoreV2 σ ++ mustUse isMustUse σ).map showDiag)
-        let diagsOk := md == idk && mdV1 == sortStrs (idiagsV1.filterMap implDiagKey) && mdV2 == sortStrs (idiagsV2.filterMap implDiagKey)
+        let mdV1 := sortStrs ((undefinedVariable hasFields σ ++ unusedVariable hasFields argObs ignoreV1 false σ ++ shadowing ignoreV1 σ ++ mustUse isMustUse σ ++ more).map showDiag)
+        let mdV2 := sortStrs ((undefinedVariable hasFields σ ++ unusedVariable hasFields argObs ignoreV2 true σ ++ shadowing ignoreV2 σ ++ mustUse isMustUse σ ++ more).map showDiag)
+        -- v3 / v4: a `[config.unused_variable]` section that sets only one option; the other keeps its documented default
+        let mdV3 := sortStrs ((undefinedVariable hasFields σ ++ unusedVariable hasFields argObs defaultIgnore false σ ++ shadowing defaultIgnore σ ++ mustUse isMustUse σ ++ more).map showDiag)
+        let mdV4 := sortStrs ((undefinedVariable hasFields σ ++ unusedVariable hasFields argObs ignoreV1 true σ ++ shadowing defaultIgnore σ ++ mustUse isMustUse σ ++ more).map showDiag)
+        let diagsOk := md == idk && mdV1 == sortStrs (idiagsV1.filterMap implDiagKey) && mdV2 == sortStrs (idiagsV2.filterMap implDiagKey) &&
+          mdV3 == sortStrs (idiagsV3.filterMap implDiagKey) && mdV4 == sortStrs (idiagsV4.filterMap implDiagKey)
         let panicOk := σ.panic.isNone
         -- the resolution core (`Scope/Core.lean`, the machine `Props/C01.lean` proves equal to Lua's resolver):
         -- every read it records, with the local declaration it denotes, against the implementation's read references
@@ -231,7 +237,20 @@ def handleTables : Handler := fun input impl =>
         let c02c := ((spec.decls.filter fun d => d.kind != .varargParam && !ignoreV1 d.name).filter fun d =>
             !mentioned.contains d.tok && !unusedV1.contains d.tok && !headerVictims.contains d.tok).head?.map fun d =>
           s!"[C02] unmentioned-not-reported: with ignore_pattern `^x` and allow_unused_self = false, `{d.name}` declared at token {d.tok} is never mentioned again but is not reported"
-        let items := [c01a, c01r, c01b, c01c, c01d, c02a, c02b, c02c, c03a, c03b, c03c].filterMap id
+        let unusedOf := fun (ds : List Sexp) => ds.filterMap fun d => match d with
+          | .list [.str "unused_variable", .list [a, _], _, _] => a.asNat?
+          | _ => none
+        let unusedV3 := unusedOf idiagsV3
+        let unusedV4 := unusedOf idiagsV4
+        let c02d := ((spec.decls.filter fun d => d.kind != .varargParam && !defaultIgnore d.name).filter fun d =>
+            !mentioned.contains d.tok && !unusedV3.contains d.tok && !headerVictims.contains d.tok).head?.map fun d =>
+          s!"[C02] unmentioned-not-reported: with only allow_unused_self = false configured (ignore_pattern keeps its default `^_`), `{d.name}` declared at token {d.tok} is never mentioned again but is not reported"
+        let c02e := ((spec.decls.filter fun d => d.kind != .varargParam && d.kind != .self_ && !ignoreV1 d.name).filter fun d =>
+            !mentioned.contains d.tok && !unusedV4.contains d.tok && !headerVictims.contains d.tok).head?.map fun d =>
+          s!"[C02] unmentioned-not-reported: with only ignore_pattern = `^x` configured, `{d.name}` declared at token {d.tok} is never mentioned again but is not reported"
+        let c02f := ((unusedV3 ++ unusedV4).filter fun t => usedDecls.contains t && !unusedToks.contains t).head?.map fun t =>
+          s!"[C02] used-but-reported: under a partial unused_variable section the variable declared at token {t} is reported unused although an expression uses its value"
+        let items := [c01a, c01r, c01b, c01c, c01d, c02a, c02b, c02c, c02d, c02e, c02f, c03a, c03b, c03c].filterMap id
         let tags :=
           (if spec.decls.any (fun d => d.visibleSameName.isSome) then ["shadowing-decl"] else []) ++
           (if spec.occs.any (fun o => o.binding.isSome) then ["local-read"] else []) ++
